@@ -62,6 +62,10 @@ def make (c):
     if rng.random () < 0.6:
         kind = str (rng.choice (['z', 'rlc', 'lap', 'skin', 'ins']))
         att  = [['all']] if rng.random () < 0.4 else [[1]]
+        ra   = np.random.default_rng ([c ['seed'], 191, c ['i']])
+        if ra.random () < 0.3:
+            # one load attached several times, also twice to one pulse (in series with itself): every attachment is listed
+            att = att + [[int (ra.integers (1, 3))]] + ([[1]] if ra.random () < 0.5 else [])
         if kind == 'z':
             loads.append (dict (k = 'z', z = [float (10 ** rng.uniform (-6, 9)), float (rng.choice ([-1, 1]) * 10 ** rng.uniform (-9, 9))], att = att))
         elif kind == 'rlc':
